@@ -478,6 +478,9 @@ def renumber(fnode):
                 k[0] += 1
                 h.lineno = k[0]
                 visit(h.body)
+            for c in getattr(st, "cases", []) or []:
+                k[0] += 1
+                visit(c.body)
     visit(fnode.body)
 
 
